@@ -240,7 +240,9 @@ def worker(args):
         for bucket, (size, case0, msg0) in flat:
             best = {"case": case0, "size": size, "msg": msg0}
             t1 = time.time()
-            shrink_budget = 25 if args.tier == "quick" else 240
+            # one shrinking budget per shard, shared by the failing cases kept (VERIF_NO_SHRINK=1: report unshrunk cases)
+            total = 0 if os.environ.get("VERIF_NO_SHRINK") else (30 if args.tier == "quick" else 300)
+            shrink_budget = total / max(1, len(flat))
             if prop.shrink_candidates(case0) is not None:
                 # greedy structural shrinking with the property's own candidates
                 cur, msg = case0, msg0
